@@ -118,11 +118,19 @@ def merge(results, rule, exhaustive=False):
     return out
 
 
-def simple_run(ctx, pairs, rule, with_spec=None):
-    """pairs: [(adapter instance, generator function)]"""
+def simple_run(ctx, pairs, rule, with_spec=None, blocks=()):
+    """pairs: [(adapter instance, generator function)]; blocks: extra relations evaluated on the implementation,
+    each `block(adapter, cases, tier, rng) -> result dict | None`"""
     rng, tier = ctx["rng"], ctx["tier"]
     ws = (not ctx["props_ok"]) if with_spec is None else with_spec
-    rs = [run_adapter(ad, gen(tier, rng), rng, with_spec=ws) for ad, gen in pairs]
+    rs = []
+    for ad, gen in pairs:
+        cases = gen(tier, rng)
+        rs.append(run_adapter(ad, cases, rng, with_spec=ws))
+        for b in blocks:
+            r = b(ad, cases, tier, rng)
+            if r is not None:
+                rs.append(r)
     return merge(rs, rule)
 
 
